@@ -383,3 +383,27 @@ mutant('C11-nfjc-window-follows-kmax', 'C11', 'R11.e', NFJF, "        x = np.ara
        "        x = np.linspace(dx,max(100,2*np.max(k)),999,endpoint=False)")
 SPF = 'pyPRISM/calculate/spinodal_condition.py'
 twin('C05-twin-spinodal-filter-else', ['C04', 'C05', 'C06'], SPF, "            if i<j:\n", "            if not i<j:\n                pass\n            else:\n")
+
+# ---- round e -----------------------------------------------------------------------------------------------------
+IMA = 'pyPRISM/core/IdentityMatrixArray.py'
+mutant('C13-identity-misses-last-diagonal', 'C13', 'R13.I', IMA, "        for i in range(rank):\n            self.data[:,i,i] = 1.0",
+       "        for i in range(rank-1):\n            self.data[:,i,i] = 1.0")
+mutant('C13-identity-ones-everywhere', 'C13', 'R13.I', IMA, "        self.data = np.zeros((length,rank,rank))\n        for i in range(rank):\n            self.data[:,i,i] = 1.0",
+       "        self.data = np.ones((length,rank,rank))")
+twin('C13-twin-identity-fancy-index', ['C13', 'C01'], IMA, "        for i in range(rank):\n            self.data[:,i,i] = 1.0",
+     "        d = np.arange(rank)\n        self.data[:,d,d] = 1.0")
+twin('C13-twin-identity-eye', ['C13', 'C01'], IMA, "        for i in range(rank):\n            self.data[:,i,i] = 1.0",
+     "        self.data += np.eye(rank)")
+SYF = 'pyPRISM/core/System.py'
+mutant('C16-system-kt-not-second-positional', ['C16', 'C01', 'C04'], 'R00.sig', SYF, "    def __init__(self,types,kT=1.0):",
+       "    def __init__(self,types,domain=None,kT=1.0):")
+mutant('C16-system-kt-default-changed', ['C16', 'C04'], 'R00.sig', SYF, "    def __init__(self,types,kT=1.0):", "    def __init__(self,types,kT=1):" if False else "    def __init__(self,types,kT=2.0):")
+twin('C16-twin-system-trailing-optional', ['C16', 'C01', 'C04'], SYF, "    def __init__(self,types,kT=1.0):", "    def __init__(self,types,kT=1.0,name=None):")
+twin('C16-twin-system-kwonly', ['C16', 'C01'], SYF, "    def __init__(self,types,kT=1.0):", "    def __init__(self,types,kT=1.0,*,label=None):")
+HSF = 'pyPRISM/potential/HardSphere.py'
+mutant('C10-hardsphere-lambda-reads-self', ['C10', 'C03'], 'R10.h', HSF, "np.where(r>sigma,0.0,high_value)", "np.where(r>sigma,0.0,self.high_value)")
+DOMF2 = 'pyPRISM/core/Domain.py'
+mutantN('C07-class-level-coefficients', 'C07', 'R07.j', [
+    (DOMF2, "    def __init__(self,length,dr=None,dk=None):", "    DST_coeffs = {}\n\n    def __init__(self,length,dr=None,dk=None):"),
+    (DOMF2, "        self.DST_II_coeffs = ", "        self.DST_coeffs[2] = self.DST_II_coeffs = "),
+    (DOMF2, "        return dst(self.DST_II_coeffs*array,type=2)/self.k", "        return dst(self.DST_coeffs[2]*array,type=2)/self.k")])
